@@ -152,6 +152,35 @@ CycleSets == {
   <<SchemaOf("p", <<Obj("p", "A", TRef("q", "B")), Obj("p", "User", TStruct(<<Field("f", TRef("p", "A"), TRUE)>>))>> \o SupportP),
     SchemaOf("q", <<Obj("q", "B", TRef("p", "A"))>> \o SupportQ)>>}
 
+(* =========================== mode "pipeline" ============================ *)
+\* codegen.Pipeline.ContextForLanguage: language passes, then the pipeline's final passes, then FromAST.  The builders it
+\* returns must be the derivation of the schemas it returns ("as shown by cog inspect --ir builders").  Every struct keeps at
+\* least one option: Rewriter.ApplyTo (run by the pipeline even without veneers) drops builders without options (C17 finding).
+KindRefOrNull == TDisj(<<TRef("p", "Kind"), TNull>>, "", <<>>)
+PipeSets == {
+  <<SchemaOf("p", <<Obj("p", "Options", TStruct(<<Field("size", TScalar("int64"), TRUE), Field("title", WithDef(TString, VStr("t")), FALSE),
+                                                   Field("legend", TRef("p", "Legend"), TRUE), Field("kind", TRef("p", "Kind"), TRUE),
+                                                   Field("maybeKind", KindRefOrNull, TRUE), Field("optKind", TRef("p", "Kind"), FALSE)>>)),
+                      Obj("p", "Legend", TStruct(<<Field("placement", TString, TRUE), Field("show", TScalar("bool"), FALSE)>>)),
+                      Obj("p", "Internal", TStruct(<<Field("x", TString, TRUE)>>)),
+                      Obj("p", "Kind", TConst("string", VStr("dashboard"))),
+                      Obj("p", "LegendAlias", TRef("p", "Legend"))>>)>>,
+  <<SchemaOf("p", <<Obj("p", "Panel", TStruct(<<Field("legend", AsNullable(TRef("q", "Legend")), FALSE), Field("tags", TArray(TString), TRUE),
+                                                 Field("inline", TStruct(<<Field("a", TString, TRUE)>>), TRUE)>>))>>),
+    SchemaOf("q", <<Obj("q", "Legend", TStruct(<<Field("placement", TString, TRUE), Field("show", TScalar("bool"), FALSE)>>)), Obj("q", "Internal", TStruct(<<Field("x", TString, TRUE)>>))>>)>>}
+NoC == [given |-> FALSE, c |-> <<>>]
+ORef(p, o) == [pkg |-> p, obj |-> o]
+FRef(p, o, f) == [pkg |-> p, obj |-> o, field |-> f]
+PassLists == {<<>>,
+  <<[a |-> "prefix_objects_names", prefix |-> "Grafana"]>>,
+  <<[a |-> "retype_field", field |-> FRef("p", "Options", "size"), as |-> TScalar("uint8"), comments |-> NoC]>>,
+  <<[a |-> "retype_field", field |-> FRef("p", "Legend", "placement"), as |-> TConst("string", VStr("bottom")), comments |-> NoC],
+    [a |-> "retype_field", field |-> FRef("q", "Legend", "placement"), as |-> TConst("string", VStr("bottom")), comments |-> NoC]>>,
+  <<[a |-> "omit", objects |-> <<ORef("p", "Internal"), ORef("q", "Internal")>>]>>,
+  <<[a |-> "rename_object", from |-> ORef("p", "Internal"), to |-> "Renamed"], [a |-> "rename_object", from |-> ORef("q", "Internal"), to |-> "Renamed"]>>,
+  <<[a |-> "omit_fields", fields |-> <<FRef("p", "Options", "title"), FRef("p", "Panel", "tags")>>]>>}
+PipeLangs == {"go", "typescript", "python", "java", "php"}
+
 (* ============================= mode "walk" ============================= *)
 Names == {"Foo", "foo", "FOO", "Bar"}
 WalkPkgs == {"p", "q", "r"}
@@ -173,10 +202,11 @@ Acyclic(Sx) == \A o \in AllObjects(Sx) : Ends(Sx, o.type, 12)
 AddObj(Sx, p, o) == [i \in DOMAIN Sx |-> IF Sx[i].pkg = p THEN [Sx[i] EXCEPT !.objects = <<o>> \o @] ELSE Sx[i]]
 Added(Sx) == Len(Sx[1].objects) + Len(Sx[2].objects) + Len(Sx[3].objects) - Len(SupportP) - Len(SupportQ) - Len(SupportR)
 
-Init == /\ tag = Mode
+Init == /\ IF Mode = "pipeline" THEN tag \in [passes : PassLists, lang : PipeLangs] ELSE tag = Mode
         /\ CASE Mode = "chains" -> \E rc \in ChainRecipes : S = ChainS(rc.len, rc.pat, rc.names, rc.term, rc.decoy, rc.rl)
              [] Mode = "fields" -> \E fr \in FieldRecipes : S = FieldS(fr)
              [] Mode = "cycles" -> S \in CycleSets
+             [] Mode = "pipeline" -> S \in PipeSets
              [] OTHER -> S = WalkBase
 Next == /\ Mode = "walk" /\ Added(S) < MaxObjs /\ tag' = tag
         /\ \E p \in WalkPkgs, n \in Names, t \in WalkTypes :
@@ -186,7 +216,8 @@ Next == /\ Mode = "walk" /\ Added(S) < MaxObjs /\ tag' = tag
              /\ \A o \in AllObjects(S') : o.type.k = "ref" => Resolve(S', o.type).k # "ref"    \* no dangling alias (C05; covered by mode "chains")
 Spec == Init /\ [][Next]_vars
 
-DeriveOK == Mode = "cycles" \/ C16Violated(S, Derive(S)) = {}
+DeriveOK == Mode \in {"cycles", "pipeline"} \/ C16Violated(S, Derive(S)) = {}
 Emit == (Mode = "walk" /\ S = WalkBase) \/
+        (Mode = "pipeline" /\ PrintT(<<"CASEP", ToJson([S |-> S, passes |-> tag.passes, lang |-> tag.lang])>>)) \/
         PrintT(<<"CASE16", ToJson([case |-> [fields |-> <<>>, variant |-> tag], S |-> S, expect |-> Derive(S), modes |-> Modes(S)])>>)
 ===============================================================================
